@@ -200,9 +200,13 @@ def run_check(check, tier, seed=0):
             re_acc.case = case
             check.check(case, re_acc)
             if sig not in re_acc.violations:
-                print('HARNESS ERROR: violation %r of case %r did not reproduce in the parent process'
-                      % (sig, case))
-                return 2
+                if 'timeout' in sig or 'slow' in sig or 'hang' in sig:
+                    # a time-based outcome that does not reproduce alone is load, not the code under test
+                    print('note: %r of case %r was seen once under load and did not reproduce; ignored' % (sig, case))
+                    continue
+                # The harness has no randomness (fixed hash seed, index-ordered enumeration): an oracle failure that a worker saw after
+                # other cases but that does not reproduce from the case alone means the result depends on what ran before in the process.
+                message = '%s [HISTORY-DEPENDENT: seen in a worker process after earlier cases, not reproducible from this case alone]' % message
         if sig in known:
             lines.append('KNOWN-FINDING: property=%s %s' % (check.pid, known[sig].get('what', sig)))
             continue
